@@ -57,7 +57,7 @@ pub open spec fn tmp_ok(w: World, factory: Seq<char>, infos: [AssetInfo; 2], t: 
     ensures
         /*[C14 create.only-owner]*/ r is Ok ==> is_owner(*old(deps.storage), info.sender.0@),
         /*[C14 create.reject-no-write]*/ !is_owner(*old(deps.storage), info.sender.0@) ==> r is Err && *final(deps.storage) == *old(deps.storage),
-        /*[C16 create.distinct-assets]*/ r is Ok ==> !asset_infos[0].same(&asset_infos[1]),
+        /*[C16,C09,C05 create.distinct-assets]*/ r is Ok ==> !asset_infos[0].same(&asset_infos[1]),
         /*[C16 create.rate-at-most-one]*/ r is Ok ==> (commission_rate is Some ==> commission_rate->Some_0.0.v() <= dd()),
         /*[C16 create.not-registered-yet]*/ r is Ok ==> final(deps.storage).tmp is Some && !old(deps.storage).pairs@.dom().contains(final(deps.storage).tmp->Some_0.pair_key@),
         /*[C16,C17,C10 create.tmp-record]*/ r is Ok ==> final(deps.storage).tmp is Some && tmp_ok(deps.querier.world(), env.contract.address.0@, asset_infos, final(deps.storage).tmp->Some_0),
@@ -235,7 +235,7 @@ pub proof fn lemma_registry_wf_after_update(p: Map<Seq<u8>, PairInfoRaw>, q: Map
         /*[C14 fexec.ownership-follows]*/ msg matches ExecuteMsg::UpdateConfig { owner, token_code_id, pair_code_id } ==> r is Ok ==> final(deps.storage).config is Some
             && final(deps.storage).config->Some_0.owner.0@ == (if owner is Some { canon_of(owner->Some_0@) } else { old(deps.storage).config->Some_0.owner.0@ }),
         // the dispatcher hands every arm its own arguments: the registry guarantees of the handlers are restated at the entry point
-        /*[C16,C10 fexec.create.checks]*/ msg matches ExecuteMsg::CreatePair { asset_infos, requirements, commission_rate, lp_token_info } ==> r is Ok ==>
+        /*[C16,C10,C09,C05 fexec.create.checks]*/ msg matches ExecuteMsg::CreatePair { asset_infos, requirements, commission_rate, lp_token_info } ==> r is Ok ==>
             !asset_infos[0].same(&asset_infos[1]) && (commission_rate is Some ==> commission_rate->Some_0.0.v() <= dd())
             && final(deps.storage).tmp is Some && !old(deps.storage).pairs@.dom().contains(final(deps.storage).tmp->Some_0.pair_key@)
             && tmp_ok(deps.querier.world(), env.contract.address.0@, asset_infos, final(deps.storage).tmp->Some_0),
